@@ -1,1 +1,62 @@
-//! Hooks for property C19 (empty until needed).
+//! Hooks for property C19 (the local cache is transparent).
+//!
+//! `Cache` and `CachedBackend` live in the crate-private module `backend::cache`; these
+//! thin wrappers let the external harness construct a `Cache` on a given directory, wrap a
+//! given backend in a `CachedBackend`, and call the `Cache` methods that `check` calls
+//! directly.  `BlobType::is_cacheable` is exposed for the dynamic cross-check of the
+//! extracted table (`FileType::is_cacheable` is private to `backend` and is observed
+//! through the behaviour of `CachedBackend` instead).
+use std::{collections::HashMap, path::PathBuf, sync::Arc};
+
+use bytes::Bytes;
+
+use crate::{
+    backend::{
+        FileType, WriteBackend,
+        cache::{Cache, CachedBackend},
+    },
+    blob::BlobType,
+    error::RusticResult,
+    id::Id,
+    repofile::configfile::RepositoryId,
+};
+
+/// A `Cache` on `<dir>/<repo id hex>/`.
+#[derive(Clone, Debug)]
+pub struct CacheHandle(Cache);
+
+/// `Cache::new(repo_id, Some(dir))`
+pub fn new_cache(repo_id: Id, dir: PathBuf) -> RusticResult<CacheHandle> {
+    Ok(CacheHandle(Cache::new(RepositoryId::from(repo_id), Some(dir))?))
+}
+
+/// `CachedBackend::new_cache(be, cache)`
+pub fn cached_backend(be: Arc<dyn WriteBackend>, cache: &CacheHandle) -> Arc<dyn WriteBackend> {
+    CachedBackend::new_cache(be, cache.0.clone())
+}
+
+impl CacheHandle {
+    pub fn location(&self) -> String {
+        self.0.location().to_string()
+    }
+    pub fn path(&self, tpe: FileType, id: &Id) -> PathBuf {
+        self.0.path(tpe, id)
+    }
+    pub fn list_with_size(&self, tpe: FileType) -> RusticResult<HashMap<Id, u32>> {
+        self.0.list_with_size(tpe)
+    }
+    pub fn remove_not_in_list(&self, tpe: FileType, list: &Vec<(Id, u32)>) -> RusticResult<()> {
+        self.0.remove_not_in_list(tpe, list)
+    }
+    pub fn read_full(&self, tpe: FileType, id: &Id) -> RusticResult<Option<Bytes>> {
+        self.0.read_full(tpe, id)
+    }
+    pub fn read_partial(&self, tpe: FileType, id: &Id, offset: u32, length: u32) -> RusticResult<Option<Bytes>> {
+        self.0.read_partial(tpe, id, offset, length)
+    }
+}
+
+/// `BlobType::is_cacheable` for (tree, data)
+pub fn blob_types_cacheable() -> (bool, bool) {
+    (BlobType::Tree.is_cacheable(), BlobType::Data.is_cacheable())
+}
